@@ -80,6 +80,25 @@ def gen(ctx, rnd, quick):
                 except Exception as e:
                     continue
                 cases.append((S.spend_line(s.tx, s.txin, R.STD), {"kind": kind, "label": "outputs=%d ht=%02x" % (n_out, ht), "built_valid": s.valid, "flags": R.STD}))
+    # lock-time opcodes look at the input being validated (its own sequence number) and at the transaction (version, lock time): every
+    # combination of this input's and another input's finality, BIP65 and BIP112, bare and P2WSH
+    def lock_tx(spk, wit, ver, lock, seqs, idx):
+        ftx = (1, [(rb(rnd, 32), 0, b"", [], 0xffffffff)], [(1000, spk)], 0)
+        vin = []
+        for j, sq in enumerate(seqs):
+            vin.append((P.txid(ftx), 0, b"", list(wit), sq) if j == idx else (rb(rnd, 32), j, b"", [], sq))
+        return (ver, vin, [(900, rb(rnd, 22))], lock), ftx
+    SEQS = (0xffffffff, 0xfffffffe, 0, 10, 0x400005, 0x80000005)
+    for (name, scr, ver, lock) in (("cltv", R.pushnum(500) + bytes([0xb1]), 1, 600), ("cltv-unmet", R.pushnum(700) + bytes([0xb1]), 1, 600),
+                                   ("cltv-time", R.pushnum(500000001) + bytes([0xb1]), 2, 500000002), ("csv", R.pushnum(5) + bytes([0xb2]), 2, 0),
+                                   ("csv-v1", R.pushnum(5) + bytes([0xb2]), 1, 0), ("csv-time", R.pushnum(0x400003) + bytes([0xb2]), 2, 0)):
+        for a in SEQS:
+            for b in (SEQS if not quick else SEQS[:3]):
+                for idx in (0, 1):
+                    for segwit in (False, True):
+                        spk = (b"\x00\x20" + P.sha256(scr)) if segwit else scr
+                        tx_, ftx_ = lock_tx(spk, [scr] if segwit else [], ver, lock, [a, b] if idx == 0 else [b, a], idx)
+                        cases.append((S.spend_line(tx_, ftx_, R.STD & ~(1 << FB["CLEANSTACK"])), {"kind": "custom", "label": "locktime-" + name, "flags": R.STD & ~(1 << FB["CLEANSTACK"])}))
     # hand-built scripts: the rules around the scripts rather than inside them
     def add(name, spk, ss=b"", wit=(), flags=R.STD, finding=None, **kw):
         tx, ftx = S.custom(rnd, spk, ss, wit, **kw)
@@ -102,6 +121,9 @@ def gen(ctx, rnd, quick):
         add("p2sh-extra-items", p2sh(red), P.push(b"\x07") + P.push(red))
         add("p2sh-extra-items-noclean", p2sh(red), P.push(b"\x07") + P.push(red), flags=NOCLEAN)
         add("p2sh-wrong-hash", bytes([0xa9, 20]) + rb(rnd, 20) + bytes([0x87]), P.push(red))
+        inner = bytes.fromhex("5152935387"); red2 = p2sh(inner)
+        add("p2sh-not-recursive", p2sh(red2), P.push(inner) + P.push(red2))
+        add("p2sh-not-recursive-false-inner", p2sh(p2sh(b"\x00")), P.push(b"\x00") + P.push(p2sh(b"\x00")))
         add("p2sh-flag-off", p2sh(b"\x00"), P.push(b"\x00"), flags=R.STD & ~(1 << FB["P2SH"]) & ~(1 << FB["CLEANSTACK"]) & ~(1 << FB["WITNESS"]) & ~(1 << FB["TAPROOT"]))
         # limits are per script: the operation count restarts with the scriptPubKey and with the redeem script
         add("opcount-per-script", bytes([0x61]) * 200 + bytes([0x51]), bytes([0x61]) * 201, flags=NOPUSH)
